@@ -667,6 +667,28 @@ def run(ctx):
             if msg:
                 spec_fail.append(("sort:short-io:%s" % c.mode, lines[i], o, "with reads/writes transferring fewer bytes than requested: " + msg,
                                   {"kind": "storm", "seed": sseed, "permille": permille, "how": "LD_PRELOAD=io_shim.so IO_SHIM_STORM=%d:%d c16_driver" % (sseed, permille)}))
+    # ---- the same sorts with a temporary directory that cannot punch holes (fallocate(PUNCH_HOLE) -> EOPNOTSUPP): the sort
+    #      ignores that failure by design, the output must not change
+    nsrc = os.path.join(vlib.ROOT, "harness", "shim", "c07_nopunch.c")
+    nso = os.path.join(vlib.CACHE, "shim", "c07_nopunch-%s.so" % hashlib.sha256(open(nsrc, "rb").read()).hexdigest()[:16])
+    if not os.path.exists(nso):
+        os.makedirs(os.path.dirname(nso), exist_ok=True)
+        vlib.sh(["gcc", "-O2", "-shared", "-fPIC", "-o", nso + ".%d.tmp" % os.getpid(), nsrc, "-ldl"], timeout=120, check=True)
+        os.replace(nso + ".%d.tmp" % os.getpid(), nso)
+    np_idx = [i for i, c in enumerate(sort_cases) if sout[i].startswith("OK") and len([b for b in input_blocks(c) if b]) >= 2][:ctx.pick(300, 2500)]
+    npo = vlib.run_lines(impl, [lines[i] for i in np_idx], timeout=ctx.pick(300, 1200), env=dict(env, LD_PRELOAD=nso))
+    for i, o in zip(np_idx, npo):
+        c = sort_cases[i]
+        msg = oracle(c, o)
+        if not msg:
+            st1, r1, rec1, _ = parse_out(sout[i])
+            st2, r2, rec2, _ = parse_out(o)
+            if st2 != st1 or canon(c, rec1 or []) != canon(c, rec2 or []):
+                msg = "output differs from the run on a file system with hole punching"
+        if msg:
+            spec_fail.append(("sort:no-hole-punch:%s" % c.mode, lines[i], o, "temporary files on a file system without hole punching: " + msg,
+                              {"kind": "nopunch", "how": "LD_PRELOAD=c07_nopunch.so c16_driver"}))
+    nopunch_runs = len(np_idx)
     # ---- util::ErsatzPRead driven directly with dictated pread return lengths (oracle mode of the shim)
     pr_cases = gen_pread(rng, ctx.pick(400, 4000))
     pr_out = vlib.run_lines(impl, pr_cases, timeout=300, env=dict(env, LD_PRELOAD=shim))
@@ -708,8 +730,9 @@ def run(ctx):
             if msg:
                 spec_fail.append(("sort:big:%s" % ("combine" if comb else "plain"), line, o, msg))
 
-    ctx.count("evaluations", len(lines) + len(off_cases) + len(big_runs) + storm_runs + len(pr_cases) + asan_runs)
+    ctx.count("evaluations", len(lines) + len(off_cases) + len(big_runs) + storm_runs + nopunch_runs + len(pr_cases) + asan_runs)
     ctx.coverage["short_io_runs"] = storm_runs
+    ctx.coverage["no_hole_punch_runs"] = nopunch_runs
     ctx.coverage["ersatz_pread_cases"] = len(pr_cases)
     ctx.coverage["adversarial_block_cases"] = len(adv_cases)
     ctx.coverage["asan_runs"] = asan_runs
@@ -773,6 +796,11 @@ def replay(ctx, obj):
             env.update(LD_PRELOAD=build_shim(), IO_SHIM_STORM="%d:%d" % (v["seed"], v["permille"]), VERIF_ALARM="60")
         elif v.get("kind") == "shim":
             env.update(LD_PRELOAD=build_shim())
+        elif v.get("kind") == "nopunch":
+            import glob as _g
+            so = sorted(_g.glob(os.path.join(vlib.CACHE, "shim", "c07_nopunch-*.so")))
+            if so:
+                env.update(LD_PRELOAD=so[-1])
     l = r["case"]
     o = vlib.run_lines(impl, [l], env=env)[0]
     if l.startswith("OFF"):
